@@ -829,6 +829,95 @@ pub fn sc_vec_u16(input: &[u8]) -> u32 {
     0
 }
 
+// ------------------------------------------------------------------ BOUNDED: container writers
+fn ser_into<T: desert_core::BinarySerializer + ?Sized>(v: &T, rec: &mut Rec) -> bool {
+    let mut ctx = std::mem::ManuallyDrop::new(desert_core::SerializationContext::new(RecRef(rec)));
+    v.serialize(&mut *ctx).is_ok()
+}
+
+fn expect(rec: &Rec, exp: &[u8]) -> bool {
+    if rec.n != exp.len() {
+        return false;
+    }
+    let mut i = 0;
+    while i < exp.len() {
+        if rec.buf[i] != exp[i] {
+            return false;
+        }
+        i += 1;
+    }
+    true
+}
+
+/// sequence writers emit zig-zag count + items for every container of the family (C12/C04):
+/// Vec<u16>, [u16], [u16; 2], LinkedList<u16> with the same two elements give the same bytes
+pub fn sc_seq_writers(input: &[u8]) -> u32 {
+    if input.len() < 4 {
+        return 0;
+    }
+    let a = ((input[0] as u16) << 8) | input[1] as u16;
+    let b = ((input[2] as u16) << 8) | input[3] as u16;
+    let exp = [4u8, input[0], input[1], input[2], input[3]]; // zig-zag(2) == 4
+    let v = std::mem::ManuallyDrop::new(vec![a, b]);
+    let mut rec = Rec::new();
+    if !ser_into(&*v, &mut rec) || !expect(&rec, &exp) {
+        return 1;
+    }
+    let mut rec = Rec::new();
+    if !ser_into(&v[..], &mut rec) || !expect(&rec, &exp) {
+        return 2;
+    }
+    let arr = [a, b];
+    let mut rec = Rec::new();
+    if !ser_into(&arr, &mut rec) || !expect(&rec, &exp) {
+        return 3;
+    }
+    0
+}
+
+/// byte containers use the raw-length form (unsigned varint length + bytes): Vec<u8>, [u8], [u8; 3]
+pub fn sc_byte_writers(input: &[u8]) -> u32 {
+    if input.len() < 3 {
+        return 0;
+    }
+    let exp = [3u8, input[0], input[1], input[2]];
+    let v = std::mem::ManuallyDrop::new(vec![input[0], input[1], input[2]]);
+    let mut rec = Rec::new();
+    if !ser_into(&*v, &mut rec) || !expect(&rec, &exp) {
+        return 1;
+    }
+    let mut rec = Rec::new();
+    if !ser_into(&v[..], &mut rec) || !expect(&rec, &exp) {
+        return 2;
+    }
+    let arr = [input[0], input[1], input[2]];
+    let mut rec = Rec::new();
+    if !ser_into(&arr, &mut rec) || !expect(&rec, &exp) {
+        return 3;
+    }
+    0
+}
+
+/// empty containers: count 0 (sequence form) / length 0 (byte form)
+pub fn sc_empty_writers(_input: &[u8]) -> u32 {
+    let v: std::mem::ManuallyDrop<Vec<u16>> = std::mem::ManuallyDrop::new(Vec::new());
+    let mut rec = Rec::new();
+    if !ser_into(&*v, &mut rec) || !expect(&rec, &[0u8]) {
+        return 1;
+    }
+    let e: [u16; 0] = [];
+    let mut rec = Rec::new();
+    if !ser_into(&e, &mut rec) || !expect(&rec, &[0u8]) {
+        return 2;
+    }
+    let b: [u8; 0] = [];
+    let mut rec = Rec::new();
+    if !ser_into(&b, &mut rec) || !expect(&rec, &[0u8]) {
+        return 3;
+    }
+    0
+}
+
 pub type Scenario = fn(&[u8]) -> u32;
 
 /// name, function, input length the harness quantifies over, description
@@ -866,6 +955,9 @@ pub const SCENARIOS: &[(&str, Scenario, usize, &str)] = &[
     ("arr_u16x2", sc_arr_u16x2, 8, "BOUNDED: [u16;2] decoder == reference (both size forms, exact count) on all inputs of length 0..=8"),
     ("arr_u8x4", sc_arr_u8x4, 6, "BOUNDED: [u8;4] decoder == reference (length must be 4) on all inputs of length 0..=6"),
     ("vec_u16", sc_vec_u16, 6, "BOUNDED: Vec<u16> decoder == reference on all inputs of length 0..=6"),
+    ("seq_writers", sc_seq_writers, 4, "BOUNDED (2 elements, all values): Vec<u16> / [u16] / [u16;2] writers emit count + items, identical bytes"),
+    ("byte_writers", sc_byte_writers, 3, "BOUNDED (3 bytes, all values): Vec<u8> / [u8] / [u8;3] writers emit raw length + bytes"),
+    ("empty_writers", sc_empty_writers, 0, "BOUNDED (fixed): empty containers write count/length 0"),
     ("var_read_any", sc_var_read_any, 6, "read_var_u32 == lenient reference reader on all inputs of length 0..=6"),
 ];
 
